@@ -41,15 +41,17 @@ type Step struct {
 }
 
 type SearchSpec struct {
-	Kind   string              `json:"kind"` // range | all | near
-	Lo     int64               `json:"lo"`
-	Hi     int64               `json:"hi"`
-	Vector []float32           `json:"vector,omitempty"`
-	VLimit int                 `json:"vlimit,omitempty"`
-	Weight *float32            `json:"weight,omitempty"`
-	Sort   []models.SortOption `json:"sort,omitempty"`
-	Offset int                 `json:"offset"`
-	Limit  int                 `json:"limit"`
+	Kind    string              `json:"kind"`           // range | all | near | tags
+	Tags    []string            `json:"tags,omitempty"` // tags: values of a containsAll / containsAny query on the case-insensitive string array
+	TagsAll bool                `json:"tagsAll,omitempty"`
+	Lo      int64               `json:"lo"`
+	Hi      int64               `json:"hi"`
+	Vector  []float32           `json:"vector,omitempty"`
+	VLimit  int                 `json:"vlimit,omitempty"`
+	Weight  *float32            `json:"weight,omitempty"`
+	Sort    []models.SortOption `json:"sort,omitempty"`
+	Offset  int                 `json:"offset"`
+	Limit   int                 `json:"limit"`
 }
 
 type Case struct {
@@ -61,9 +63,10 @@ type Case struct {
 }
 
 var schema = models.IndexSchema{
-	"n":   {Type: models.IndexTypeInteger},
-	"tag": {Type: models.IndexTypeString, String: &models.IndexStringParameters{CaseSensitive: true}},
-	"vec": {Type: models.IndexTypeVectorFlat, VectorFlat: &models.IndexVectorFlatParameters{VectorSize: 2, DistanceMetric: models.DistanceEuclidean}},
+	"n":    {Type: models.IndexTypeInteger},
+	"tag":  {Type: models.IndexTypeString, String: &models.IndexStringParameters{CaseSensitive: true}},
+	"vec":  {Type: models.IndexTypeVectorFlat, VectorFlat: &models.IndexVectorFlatParameters{VectorSize: 2, DistanceMetric: models.DistanceEuclidean}},
+	"tags": {Type: models.IndexTypeStringArray, StringArray: &models.IndexStringArrayParameters{IndexStringParameters: models.IndexStringParameters{CaseSensitive: false}}},
 }
 
 func poolIds(n int) []uuid.UUID {
@@ -86,6 +89,9 @@ func genDoc(t *rapid.T, label string) model.Doc {
 		"vec": []float32{float32(rapid.IntRange(-4, 4).Draw(t, label+"-x")), float32(rapid.IntRange(-4, 4).Draw(t, label+"-y"))}}
 	if rapid.IntRange(0, 3).Draw(t, label+"-rank") > 0 {
 		d["rank"] = int64(rapid.IntRange(0, 3).Draw(t, label+"-rk"))
+	}
+	if rapid.IntRange(0, 3).Draw(t, label+"-hastags") > 0 {
+		d["tags"] = rapid.SliceOfNDistinct(rapid.SampledFrom([]string{"Go", "go", "RUST", "rust", "Zig"}), 1, 3, rapid.ID[string]).Draw(t, label+"-tags")
 	}
 	return d
 }
@@ -169,7 +175,12 @@ func genCase(t *rapid.T) Case {
 			}
 		default:
 			st.Kind = "search"
-			sp := &SearchSpec{Kind: rapid.SampledFrom([]string{"range", "all", "near", "near"}).Draw(t, fmt.Sprintf("sk%d", i))}
+			sp := &SearchSpec{Kind: rapid.SampledFrom([]string{"range", "all", "near", "near", "tags"}).Draw(t, fmt.Sprintf("sk%d", i))}
+			if sp.Kind == "tags" {
+				// values that repeat themselves once the case is folded
+				sp.Tags = rapid.SliceOfN(rapid.SampledFrom([]string{"Go", "go", "GO", "RUST", "rust", "Zig", "zig"}), 1, 4).Draw(t, fmt.Sprintf("stags%d", i))
+				sp.TagsAll = rapid.Bool().Draw(t, fmt.Sprintf("stagsall%d", i))
+			}
 			sp.Lo = int64(rapid.IntRange(-4, 6).Draw(t, fmt.Sprintf("lo%d", i)))
 			sp.Hi = sp.Lo + int64(rapid.IntRange(1, 8).Draw(t, fmt.Sprintf("hi%d", i)))
 			sp.Vector = []float32{float32(rapid.IntRange(-4, 4).Draw(t, fmt.Sprintf("qx%d", i))), float32(rapid.IntRange(-4, 4).Draw(t, fmt.Sprintf("qy%d", i)))}
@@ -214,6 +225,12 @@ func (sp SearchSpec) request() models.SearchRequest {
 		q = models.Query{Property: "n", Integer: &models.SearchIntegerOptions{Value: sp.Lo, EndValue: sp.Hi, Operator: models.OperatorInRange}}
 	case "all":
 		q = models.Query{Property: "n", Integer: &models.SearchIntegerOptions{Value: math.MinInt64, EndValue: math.MaxInt64, Operator: models.OperatorInRange}}
+	case "tags":
+		op := models.OperatorContainsAny
+		if sp.TagsAll {
+			op = models.OperatorContainsAll
+		}
+		q = models.Query{Property: "tags", StringArray: &models.SearchStringArrayOptions{Value: append([]string{}, sp.Tags...), Operator: op}}
 	default:
 		q = models.Query{Property: "vec", VectorFlat: &models.SearchVectorFlatOptions{Vector: sp.Vector, Operator: models.OperatorNear, Limit: sp.VLimit, Weight: sp.Weight}}
 	}
@@ -501,7 +518,7 @@ func execCase(c Case) (res vt.Result) {
 					return fail("search failed although every shard server is available: %v", err)
 				}
 				rec.Count("search_errors_with_server_down", 1)
-			} else if err := checkSearch(m, *st.Search, req, results, len(col.ShardIds)); err != nil {
+			} else if err := checkSearch(m, *st.Search, req, results, len(col.ShardIds), !anyShardDown && c.MaxShardPointCount <= 10); err != nil {
 				return fail("%v", err)
 			}
 		}
@@ -576,9 +593,61 @@ func countUnprocessed(points []model.Point, m *model.Collection, unreachable fun
 	return n
 }
 
-func checkSearch(m *model.Collection, sp SearchSpec, req models.SearchRequest, results []models.SearchResult, nshards int) error {
+// matches says whether a stored document satisfies a filter-kind search (range | all | tags).
+func (sp SearchSpec) matches(d model.Doc) bool {
+	switch sp.Kind {
+	case "range":
+		n, ok := model.FieldInt(d, "n")
+		return ok && n >= sp.Lo && n <= sp.Hi
+	case "all":
+		_, ok := model.FieldInt(d, "n")
+		return ok
+	case "tags":
+		have := map[string]bool{}
+		if l, ok := model.Canon(d["tags"]).([]any); ok {
+			for _, e := range l {
+				if s, ok := e.(string); ok {
+					have[strings.ToLower(s)] = true
+				}
+			}
+		}
+		all, any := true, false
+		for _, v := range sp.Tags {
+			if have[strings.ToLower(v)] {
+				any = true
+			} else {
+				all = false
+			}
+		}
+		if sp.TagsAll {
+			return all
+		}
+		return any
+	}
+	return false
+}
+
+func checkSearch(m *model.Collection, sp SearchSpec, req models.SearchRequest, results []models.SearchResult, nshards int, complete bool) error {
 	if len(results) > sp.Limit {
 		return fmt.Errorf("%d rows for limit %d", len(results), sp.Limit)
+	}
+	if sp.Kind != "near" {
+		// a filter: every row satisfies it; and when every shard answered, no shard holds more matches than
+		// a shard is asked for, nothing is skipped and the limit is not reached, every match is there
+		want := 0
+		for _, d := range m.Docs {
+			if sp.matches(d) {
+				want++
+			}
+		}
+		for i, r := range results {
+			if d, ok := m.Docs[r.Point.Id]; ok && !sp.matches(d) {
+				return fmt.Errorf("row %d: %s does not satisfy the filter (%s %v all=%v): %s", i, r.Point.Id, sp.Kind, sp.Tags, sp.TagsAll, model.Show(map[string]any(d)))
+			}
+		}
+		if complete && sp.Offset == 0 && want <= sp.Limit && len(results) != want {
+			return fmt.Errorf("%d rows, %d stored points satisfy the filter (%s lo=%d hi=%d tags=%v all=%v, limit %d)", len(results), want, sp.Kind, sp.Lo, sp.Hi, sp.Tags, sp.TagsAll, sp.Limit)
+		}
 	}
 	seen := map[uuid.UUID]bool{}
 	var prev models.SearchResult
